@@ -51,7 +51,7 @@ from ser import Ids, Ser, Unsupported, ser, deser
 from props import c01 as K
 
 LEAN_MODULE = "Optyx.Props.C15"
-EXTRA_MODULES = ["Optyx.Props.PinsC15"]   # transcription anchors (harness/source_pins.py)
+EXTRA_MODULES = ["Optyx.Props.PinsC15", "Optyx.Props.BuildTie"]   # transcription anchors (harness/source_pins.py)
 THEOREMS = [
     "Optyx.Props.C15.gradIter_eq",
     "Optyx.Props.C15.gradIter_tree",
@@ -66,6 +66,8 @@ THEOREMS = [
     "Optyx.Props.C15.denote_leftDeep_add_eq_vectorised",
     "Optyx.Props.C15.denote_leftDeep_sub_div",
     "Optyx.Props.C15.leftDeep_depth",
+    "Optyx.Props.BuildTie.compile_step",
+    "Optyx.Props.BuildTie.compileVec_step",
     "Optyx.Props.PinsC15.anchors",
 ]
 ASSUMPTIONS = [
